@@ -63,9 +63,194 @@ let pool_bfs line =
     (if Hashtbl.length seen >= limit then " LIMIT" else "")
 
 
+(* ---- trace replay (correspondence) and the boolean specification on traces ---- *)
+
+(* case = "script=2,1 panics=1.0,2.1 ... #idx*count"; impl = "ev ev ... [!failure]" *)
+let parse_case (case : string) : int list * (int * int) list =
+  let scr = ref [] and pan = ref [] in
+  List.iter (fun tok ->
+    match String.index_opt tok '=' with
+    | Some i ->
+      let k = String.sub tok 0 i and v = String.sub tok (i + 1) (String.length tok - i - 1) in
+      let items = List.filter (fun x -> x <> "") (String.split_on_char ',' v) in
+      if k = "script" then scr := List.map int_of_string items
+      else if k = "panics" then
+        pan := List.map (fun x -> match String.split_on_char '.' x with
+          | [b; i] -> (int_of_string b, int_of_string i) | _ -> failwith ("bad panics " ^ x)) items
+    | None -> ()) (toks case);
+  (!scr, !pan)
+
+let split_failure (impl : string) : string list * string option =
+  let ts = List.filter (fun t -> t <> "") (toks impl) in
+  match List.rev ts with
+  | last :: rest when String.length last > 0 && last.[0] = '!' ->
+    (List.rev rest, Some (String.sub last 1 (String.length last - 1)))
+  | _ -> (ts, None)
+
+let slots_of_string (s : string) : nat option list =
+  List.map (fun x -> if x = "-" then None else Some (nat_of_int (int_of_string x)))
+    (List.filter (fun x -> x <> "") (String.split_on_char ',' s))
+
+let string_of_slots (l : nat option list) : string =
+  String.concat "," (List.map (function None -> "-" | Some x -> string_of_int (int_of_nat x)) l)
+
+let fields tok = String.split_on_char '.' tok
+
+(* Replays the global event sequence of one schedule through the extracted [step]:
+   every event must be enabled in the model (with equal observed values), the run
+   must end in the model's final state with equal result slots. *)
+let pool_replay (line : string) : string =
+  let case, impl = split_sb line in
+  let scr, _ = parse_case case in
+  let evs, failure = split_failure impl in
+  let cfg = PoolM.code_cfg in
+  let s = ref (PoolM.init (List.map nat_of_int scr)) in
+  let pending_spawn = ref [] in
+  let half_done : (int, unit) Hashtbl.t = Hashtbl.create 8 in
+  let rets_seen = ref 0 in
+  let exception Reject of string in
+  let step l why = match PoolM.step cfg !s l with
+    | Some s' -> s := s'
+    | None -> raise (Reject ("not enabled: " ^ why)) in
+  let rc () = int_of_nat !s.PoolM.rc in
+  let rendezvous c =
+    if Hashtbl.mem half_done c then Hashtbl.remove half_done c
+    else begin
+      if !pending_spawn <> [] then raise (Reject "send before all spawns");
+      step (PoolM.ESend (nat_of_int c)) ("send " ^ string_of_int c);
+      Hashtbl.replace half_done c ()
+    end in
+  let idx = ref 0 in
+  try
+    List.iter (fun tok ->
+      incr idx;
+      (try
+        (match fields tok with
+         | ["B"; n] ->
+           (match !s.PoolM.cst, !s.PoolM.script with
+            | PoolM.CIdle, m :: _ when int_of_nat m = int_of_string n -> ()
+            | _ -> raise (Reject "broadcast not expected here"))
+         | ["N"; v] ->
+           let before = List.length !s.PoolM.ws in
+           step (PoolM.EBegin (nat_of_int (int_of_string v))) "begin";
+           let after = List.length !s.PoolM.ws in
+           pending_spawn := List.init (after - before) (fun i -> before + i + 1)
+         | ["S"; k] ->
+           (match !pending_spawn with
+            | k' :: rest when k' = int_of_string k -> pending_spawn := rest
+            | _ -> raise (Reject "spawn not expected (only the missing threads are spawned)"))
+         | ["Q"; c] -> rendezvous (int_of_string c)
+         | ["R"; t; c; "1"] ->
+           if t <> c then raise (Reject "task received by the wrong thread");
+           rendezvous (int_of_string c)
+         | ["R"; t; c; "0"] ->
+           if t <> c then raise (Reject "channel closed on the wrong thread");
+           step (PoolM.EWExit (nat_of_int (int_of_string t))) "exit"
+         | ["C"; t; i; p] when p = "0" || p = "1" ->
+           if t <> i then raise (Reject "index called on the wrong thread");
+           let p = (p = "1") in
+           if t = "0" then step (PoolM.ERun0 p) "run0" else step (PoolM.EWRun (nat_of_int (int_of_string t), p)) "run"
+         | ["H"; t; "1"] -> step (PoolM.EWClone (nat_of_int (int_of_string t))) "clone"
+         | ["D"; t; old] when old <> "x" ->
+           if int_of_string old <> rc () then raise (Reject (Printf.sprintf "fetch_sub returned %s, model has %d" old (rc ())));
+           step (PoolM.EWDec (nat_of_int (int_of_string t))) "dec"
+         | ["U"; t; "0"] -> step (PoolM.EWUnpark (nat_of_int (int_of_string t))) "unpark"
+         | ["L"; "0"; v] when v <> "x" ->
+           if int_of_string v <> rc () then raise (Reject (Printf.sprintf "load returned %s, model has %d" v (rc ())));
+           step PoolM.ELoad "load"
+         | ["P"; "0"] -> step PoolM.EPark "park"
+         | ["W"; "0"] -> step PoolM.ESpurious "spurious"
+         | ["T"; sl] ->
+           (match !s.PoolM.cst, List.rev !s.PoolM.returned with
+            | PoolM.CIdle, r :: _ when List.length !s.PoolM.returned = !rets_seen + 1 ->
+              incr rets_seen;
+              if string_of_slots r.PoolM.r_slots <> sl then
+                raise (Reject ("result slots: model " ^ string_of_slots r.PoolM.r_slots))
+            | _ -> raise (Reject "return not expected here"))
+         | ["X"] -> step PoolM.EDrop "drop"
+         | ["E"; t] ->
+           (match List.nth_opt !s.PoolM.ws (int_of_string t - 1) with
+            | Some PoolM.WExit -> ()
+            | _ -> raise (Reject "thread end without channel close"))
+         | _ -> raise (Reject "no such event in the model"))
+      with Failure m -> raise (Reject ("malformed: " ^ m)))) evs;
+    (match failure with Some f -> raise (Reject ("implementation: " ^ f)) | None -> ());
+    if Hashtbl.length half_done <> 0 then raise (Reject "unfinished rendezvous");
+    if not (PoolM.final !s) then raise (Reject "model not in its final state at the end of the trace");
+    if not (PoolM.inv_all cfg !s) then raise (Reject "model invariant false");
+    "accept"
+  with Reject why ->
+    Printf.sprintf "reject@%d:%s:%s" !idx (try List.nth evs (!idx - 1) with _ -> "-") why
+
+let ev_of_token (tok : string) : PoolMon.ev =
+  let n x = nat_of_int (int_of_string x) in
+  try
+    match fields tok with
+    | ["B"; x] -> PoolMon.VBcast (n x)
+    | ["N"; v] -> PoolMon.VNew (n v)
+    | ["S"; k] -> PoolMon.VSpawn (n k)
+    | ["Q"; c] -> PoolMon.VSent (n c)
+    | ["R"; t; c; "1"] -> PoolMon.VRecv (n t, n c, true)
+    | ["R"; t; c; "0"] -> PoolMon.VRecv (n t, n c, false)
+    | ["R"; t; _; "x"] -> PoolMon.VDead (n t)
+    | ["C"; t; _; "x"] -> PoolMon.VDead (n t)
+    | ["C"; t; i; p] -> PoolMon.VCall (n t, n i, p = "1")
+    | ["H"; t; "x"] -> PoolMon.VDead (n t)
+    | ["H"; t; o] -> PoolMon.VClone (n t, o = "1")
+    | ["D"; t; "x"] -> PoolMon.VDead (n t)
+    | ["D"; t; old] -> PoolMon.VDec (n t, n old)
+    | ["U"; t; "x"] -> PoolMon.VDead (n t)
+    | ["U"; t; o] -> PoolMon.VUnpark (n t, o = "1")
+    | ["L"; t; "x"] -> PoolMon.VDead (n t)
+    | ["L"; _; v] -> PoolMon.VLoad (n v)
+    | ["P"; _] -> PoolMon.VPark
+    | ["W"; _] -> PoolMon.VSpur
+    | ["T"; sl] -> PoolMon.VRet (slots_of_string sl)
+    | ["T"] -> PoolMon.VRet []
+    | ["X"] -> PoolMon.VDrop
+    | ["E"; t] -> PoolMon.VExit (n t)
+    | _ -> PoolMon.VOther
+  with _ -> PoolMon.VOther
+
+let clause_name = function
+  | 1 -> "once-per-index" | 2 -> "results-indexed" | 3 -> "touch-after-caller-may-resume" | 4 -> "worker-not-exited"
+  | 5 -> "spawn-count" | 6 -> "dead-task-block-access" | 7 -> "foreign-event" | 8 -> "incomplete(deadlock)"
+  | 9 -> "returned-with-nonzero-counter" | k -> "clause" ^ string_of_int k
+
+(* which: the clauses that belong to the property; the others are reported by the sibling property *)
+let pool_sb (which : int list) (line : string) : string =
+  let case, impl = split_sb line in
+  if String.length impl >= 5 && String.sub impl 0 5 = "crash" then "false harness-crash" else
+  let scr, pan = parse_case case in
+  let evs, failure = split_failure impl in
+  let fails = PoolMon.check (List.map nat_of_int scr) (List.map (fun (b, i) -> (nat_of_int b, nat_of_int i)) pan)
+      (List.map ev_of_token evs) in
+  let fails = List.sort_uniq compare (List.map int_of_nat fails) in
+  let fails = List.filter (fun f -> List.mem f which) fails in
+  let extra = match failure with
+    | Some f when List.mem 8 which -> [f]
+    | _ -> [] in
+  if fails = [] && extra = [] then "true"
+  else "false " ^ String.concat "," (List.map clause_name fails @ extra)
+
+let c06_clauses = [1; 2; 3; 5; 6; 7; 9]
+let c07_clauses = [4; 8]
+
+(* generated-constant side conditions, as the driver sees them (the proof obligations are in Properties/) *)
+let pool_consts _ =
+  let c = PoolM.code_cfg in
+  Printf.sprintf "release=%b acquire=%b old=%d loop=%b nonzero=%b"
+    (PoolM.is_release c.PoolM.c_dec) (PoolM.is_acquire c.PoolM.c_load) (int_of_nat c.PoolM.c_unpark_old)
+    c.PoolM.c_loop c.PoolM.c_nonzero
+
 let dispatch mode line =
   match mode with
   | "pool-bfs" -> pool_bfs line
+  | "c06" | "c07" | "replay" -> pool_replay line
+  | "c06.sb" -> pool_sb c06_clauses line
+  | "c07.sb" -> pool_sb c07_clauses line
+  | "replay.sb" -> pool_sb (c06_clauses @ c07_clauses) line
+  | "pool-consts" -> pool_consts line
   | _ -> failwith ("unknown mode " ^ mode)
 
 let () = main dispatch
